@@ -132,7 +132,7 @@ class C18(Prop):
     quick_examples = 2500
     thorough_examples = 10000
     fuzz_runs = 15000
-    floors = {'attrs_eviction': 0.03, 'attrs_rejected': 0.1, 'attrs_frozen': 0.05, 'merge_override': 0.05,
+    floors = {'attrs_eviction': 0.02, 'attrs_rejected': 0.07, 'attrs_frozen': 0.03, 'merge_override': 0.05,
               'create_env': 0.05, 'start_plugins': 0.03}
 
     def strategy(self, tier):
@@ -144,7 +144,12 @@ class C18(Prop):
                        st.tuples(st.just('del'), st.sampled_from(KEYS[:6])),
                        st.tuples(st.just('merge'), st.lists(st.tuples(st.sampled_from(KEYS[:6]), VSPEC), max_size=3),
                                  st.sampled_from([0, 1, 2])),
-                       st.tuples(st.just('copy')), st.tuples(st.just('iter')))
+                       st.tuples(st.just('copy')), st.tuples(st.just('iter')),
+                       # the modifying methods a mapping inherits: each of them is a modification too
+                       st.tuples(st.just('clear')), st.tuples(st.just('pop'), st.sampled_from(KEYS[:6])),
+                       st.tuples(st.just('popitem')),
+                       st.tuples(st.just('update'), st.lists(st.tuples(st.sampled_from(KEYS[:6]), VSPEC), max_size=3)),
+                       st.tuples(st.just('setdefault'), st.sampled_from(KEYS[:6]), VSPEC))
         attrs = fd({
             'mode': st.just('attrs'),
             'cap': st.sampled_from([None, 0, 1, 2, 1, 2, 3, 4, 6]), 'limit': st.sampled_from([None, 0, 1, 3, 8]),
@@ -154,7 +159,9 @@ class C18(Prop):
         })
         res = fd({'attrs': st.lists(st.tuples(st.sampled_from(['a', 'b', 'c', 'service.name']),
                                                                  st.sampled_from(['1', '2', '3', '', 'x'])), max_size=3),
-                                     'schema': st.sampled_from(['', '', 'a', 'b'])})
+                                     'schema': st.sampled_from(['', '', 'a', 'b']),
+                                     # many attributes (a large environment, a verbose plugin)
+                                     'bulk': st.sampled_from([0, 0, 0, 0, 40, 130, 300])})
         merge = fd({'mode': st.just('merge'), 'chain': st.lists(res, min_size=2, max_size=5)})
         envitem = st.one_of(st.tuples(st.sampled_from(['a', 'b', 'service.name', ' padded ', 'telemetry.sdk.name']),
                                       st.sampled_from(['1', 'v%20x', ' sp ', '', 'a=b', 'z'])).map(lambda t: '%s=%s' % t),
@@ -167,6 +174,7 @@ class C18(Prop):
                                                         'telemetry.sdk.version', 'telemetry.sdk.language']),
                                        st.sampled_from(['code1', '', 'code2', None, ['mixed', 1], 'code3'])), max_size=3),
             'schema': st.sampled_from([None, '', 'http://s']),
+            'env_bulk': st.sampled_from([0, 0, 0, 60, 200]), 'code_bulk': st.sampled_from([0, 0, 0, 60, 200]),
         })
         provider = fd({'order': st.sampled_from([0, 1, 2, -1]), 'kind': st.sampled_from(
             ['ok', 'ok', 'none', 'raises']), 'keys': st.lists(st.sampled_from(['a', 'b', 'service.name', 'p']),
@@ -285,6 +293,61 @@ class C18(Prop):
         for op in r['ops']:
             kind = op[0]
             before = (dict(real._dict), real.dropped)
+            if kind in ('clear', 'pop', 'popitem', 'update', 'setdefault'):
+                out.cls('attrs_inherited_mutator')
+                raised = None
+                given = {}
+                try:
+                    if kind == 'clear':
+                        real.clear()
+                    elif kind == 'pop':
+                        real.pop(op[1])
+                    elif kind == 'popitem':
+                        real.popitem()
+                    elif kind == 'update':
+                        for k, spec in op[1]:
+                            given[k] = build_value(spec)
+                        real.update(given)
+                    else:
+                        given[op[1]] = build_value(op[2])
+                        real.setdefault(op[1], given[op[1]])
+                except (TypeError, KeyError) as e:
+                    raised = e
+                except BaseException as e:      # noqa
+                    out.violate('%s raised %s' % (kind, type(e).__name__))
+                    return out
+                after = (dict(real._dict), real.dropped)
+                if frozen:
+                    if after != before:
+                        out.violate('frozen container accepted a %s' % kind)
+                        return out
+                    continue
+                if isinstance(raised, TypeError):
+                    out.violate('set/delete raised TypeError on a container that is not frozen')
+                    return out
+                expect_keyerror = (kind == 'pop' and op[1] not in models[0].d) or (kind == 'popitem' and not models[0].d)
+                if isinstance(raised, KeyError) != expect_keyerror:
+                    out.violate('unexpected KeyError in %s' % kind if raised else '%s of a missing key did not raise' % kind)
+                    return out
+                if kind == 'clear':
+                    for m in models:
+                        m.d.clear()
+                        del m.order[:]
+                elif kind == 'pop' and not expect_keyerror:
+                    for m in models:
+                        m.delete(op[1])
+                elif kind == 'popitem' and not expect_keyerror:
+                    for m in models:
+                        m.delete(m.order[0])
+                elif kind == 'update':
+                    for k, v in given.items():
+                        m_set(k, v)
+                elif kind == 'setdefault':
+                    if op[1] not in models[0].d:
+                        m_set(op[1], given[op[1]])
+                if not compare(kind):
+                    return out
+                continue
             try:
                 if kind == 'set':
                     v = build_value(op[2])
@@ -352,7 +415,14 @@ class C18(Prop):
     def case_merge(self, r):
         out = Outcome()
         out.cls('merge')
-        resources = [Resource(dict(x['attrs']), x['schema']) for x in r['chain']]
+        resources = []
+        for i, x in enumerate(r['chain']):
+            a = dict(x['attrs'])
+            for j in range(x.get('bulk') or 0):
+                a['bulk%d.%d' % (i % 2, j)] = 'v%d' % i
+            if x.get('bulk'):
+                out.cls('merge_many_attributes')
+            resources.append(Resource(a, x['schema']))
         acc = resources[0]
         exp_attrs = dict(resources[0].attributes)
         exp_schema = resources[0].schema_url
@@ -400,6 +470,10 @@ class C18(Prop):
         os.environ.pop('DEEP_RESOURCE_ATTRIBUTES', None)
         os.environ.pop('DEEP_SERVICE_NAME', None)
         env = {}
+        if r.get('env_bulk'):
+            r = dict(r, env_attrs=','.join(([r['env_attrs']] if r['env_attrs'] else []) +
+                                           ['many.e%d=env%d' % (j, j) for j in range(r['env_bulk'])]))
+            out.cls('create_many_attributes')
         if r['env_attrs'] is not None:
             os.environ['DEEP_RESOURCE_ATTRIBUTES'] = r['env_attrs']
             out.cls('create_env')
@@ -415,6 +489,9 @@ class C18(Prop):
             if r['env_service']:
                 env['service.name'] = r['env_service']
         code = dict(r['code'])
+        for j in range(r.get('code_bulk') or 0):
+            code['many.c%d' % j] = 'code%d' % j
+            out.cls('create_many_attributes')
         try:
             res = Resource.create(dict(code), r['schema'])
         except BaseException as e:      # noqa
